@@ -523,9 +523,13 @@ fn run_inproc(ctx: &Ctx) {
         if ctx.thorough() {
             let ins: &[&str] = SIGMA;
             let ni = ins.len() as u64;
+            // the corpus input whose delete-1 neighbour is the listed @extend blow-up (an open finding) is left
+            // out of the insertion / substitution spaces: its other neighbours run into the same blow-up, and a
+            // hang ends the run before the rest of the space is explored
+            let blowup_family = |src: &str| src.contains(".a.mod1") && src.contains("@extend .a, .b");
             let mut iidx: Vec<(u32, u32)> = Vec::new();
             for (ci, t) in toks.iter().enumerate() {
-                if corp[ci].input.len() > 400 {
+                if corp[ci].input.len() > 400 || blowup_family(&corp[ci].input) {
                     continue;
                 }
                 for k in 0..=t.len() {
@@ -545,7 +549,7 @@ fn run_inproc(ctx: &Ctx) {
             });
             let mut sidx: Vec<(u32, u32)> = Vec::new();
             for (ci, t) in toks.iter().enumerate() {
-                if corp[ci].input.len() > 400 {
+                if corp[ci].input.len() > 400 || blowup_family(&corp[ci].input) {
                     continue;
                 }
                 for k in 0..t.len() {
@@ -574,6 +578,11 @@ fn run_inproc(ctx: &Ctx) {
 /// least twice after its definition header (possible recursion), or @for (range edits).
 pub fn may_diverge_when_edited(src: &str) -> bool {
     if src.contains("@while") {
+        return true;
+    }
+    // an inserted digit can turn the bound of a loop into billions of iterations: a loop of the input,
+    // not a failure to terminate
+    if src.contains("@for") && src.chars().filter(|c| c.is_ascii_digit()).count() >= 8 {
         return true;
     }
     for kw in ["@function", "@mixin", "=", "@include", "+"] {
